@@ -123,6 +123,7 @@ static void c18_run(void) {
 	g.opmask |= (1u << OP_APPLY) | (1u << OP_BARRIER_AAW);
 	g.min_queues = 2; g.max_queues = 6; g.max_qdepth = 4; g.nest_pct = 40; g.nest_depth = 3;
 	g.min_clients = 2; g.max_clients = 4; g.max_ops = 7;
+	g.retarget = 2;   // a third of the runs move an active leaf queue under another queue: identity follows the new chain
 	if (g_chance(1, 3)) { g.use_main = 1; g.main_tree = 1; g.qkindmask |= 1u << QK_MAIN; g.nest_pct = 60; }   // hierarchies rooted at the main queue
 	qprog_run(&g);
 	// attribute / global-queue half: a slice of the finite table per run, after the simulated part (fair scheduling,
